@@ -168,6 +168,37 @@ def run_explored(ctx, tier, rng):
     ctx.bump("tlc_explored_behaviours_replayed", n)
 
 
+def run_policies(ctx, tier, rng, pairs, res):
+    """All completion orders: async jobs re-run under the controlled driver with adversarial release policies
+    (oldest / newest / random) -- supersteps are barriers, so producer/waiter order and waiter counts must not move."""
+    from .. import sched
+    cand = [(j, t) for j, t in pairs if j["mode"] == "async" and not any(n["kind"] == "interrupt" for n in j["prog"]["nodes"])]
+    rng.shuffle(cand)
+    n = 0
+    for j, tag in cand[: (400 if tier == "thorough" else 60)]:
+        m = res[j["id"]]
+        ja = dict(j, prog=sched.asyncify(j["prog"]))
+        for name, pick in (("oldest", lambda keys: keys[0]), ("newest", lambda keys: keys[-1]), ("random", lambda keys, r=random.Random(rng.random()): r.choice(keys))):
+            o, ctl = sched.run_schedule(ja, [], 0, pick=pick)
+            ctx.count()
+            ctx.traces()
+            n += 1
+            wit = {"job": ja, "tag": tag, "policy": name, "released": ctl.released[:30], "observed": {"status": o["status"], "calls": [c["path"] for c in o["calls"]]}}
+            if o["status"] == "deadlock":
+                ctx.violation("policy:deadlock", wit, f"run did not terminate under release policy {name}")
+                break
+            bad = False
+            for p, w in waiter_pairs(j["prog"]):
+                pm, po = predict.projection(m["calls"], p, w), predict.projection(o["calls"], p, w)
+                if pm != po:
+                    ctx.violation("policy:producer-waiter-order", wit, f"({p},{w}) projection {po} under policy {name}, model {pm}")
+                    bad = True
+                    break
+            if bad:
+                break
+    ctx.bump("adversarial_policy_runs", n)
+
+
 def selftest(ctx, pairs):
     """Move a waiter's start in front of its producer in a recorded log: TLC must reject it."""
     for j, tag in pairs:
@@ -193,11 +224,12 @@ def run(tier, seed):
         ctx.distinct(IR.struct_hash([j["prog"], j["provided"], j["mode"]]))
     res, reals = enginecheck.evaluate(ctx, pairs, PID, compare, trace_prop=PID, min_accepted=len(pairs) // 2)
     run_explored(ctx, tier, rng)
+    run_policies(ctx, tier, rng, pairs, res)
     mid = pairs[len(pairs) // 2][0]
     ctx.sample({"job": mid, "observed_calls": [c["path"] for c in reals[mid["id"]].get("calls", [])]})
     ctx.assumptions += ["a production is a completed invocation of a node that lists the awaited name among its outputs",
                         "safety half: TLC monitor on model runs (invariant) and on recorded real call logs (TraceL1); liveness half: waiter invocation counts and (producer, waiter) order projections equal the engine model's, loop templates as in C04"]
-    return ctx.finish(rule="signal templates (producer/waiter in either list order, signal or data name, 1-2 waiters, emitting gate, emitting interrupt answered by handler / by the caller, a signal with two exclusive producers in a counting loop, documented chat loop with 0..4 iterations) on both runners + seeded random programs with emit/wait_for pairs, gates and cycles; HGSteps: every gate-decision / failure combination of small signal programs explored by TLC with the monitor as invariant, every terminal behaviour replayed; distinct = structural hash of (program, provided, runner)")
+    return ctx.finish(rule="signal templates (producer/waiter in either list order, signal or data name, 1-2 waiters, emitting gate, emitting interrupt answered by handler / by the caller, a signal with two exclusive producers in a counting loop, documented chat loop with 0..4 iterations) on both runners + seeded random programs with emit/wait_for pairs, gates and cycles; async programs re-run under adversarial release policies (oldest / newest / random completion); HGSteps: every gate-decision / failure combination of small signal programs explored by TLC with the monitor as invariant, every terminal behaviour replayed; distinct = structural hash of (program, provided, runner)")
 
 
 def replay(path):
